@@ -2,6 +2,7 @@ package main
 
 import (
 	"encoding/json"
+	"strconv"
 	"fmt"
 	"go/ast"
 	"go/types"
@@ -160,12 +161,25 @@ type Session struct {
 
 func (s *Session) verifyKey(key string, con *Contract) *Unit {
 	u := &Unit{Key: key, Short: shortKey(key), Con: con}
-	ref := s.ix.byKey[key]
+	base, litN := key, 0
+	if i := strings.LastIndex(key, "$"); i >= 0 {
+		if n, err := strconv.Atoi(key[i+1:]); err == nil {
+			base, litN = key[:i], n
+		}
+	}
+	ref := s.ix.byKey[base]
+	var lit *ast.FuncLit
+	if ref != nil && ref.fd.Body != nil && litN > 0 {
+		lit = nthFuncLit(ref.fd, litN)
+		if lit == nil {
+			ref = nil
+		}
+	}
 	if ref == nil || ref.fd.Body == nil {
 		u.Obls = append(u.Obls, &Obligation{Name: u.Short + ":binding", Goal: "function under contract exists with a body", Result: SolveResult{Status: "unknown", Model: "no function " + key + " in the loaded packages"}})
 		return u
 	}
-	e := &Eng{pkg: ref.pkg, info: ref.pkg.TypesInfo, fset: ref.pkg.Fset, contracts: s.cs, fn: ref.fd, fnKey: u.Short, con: con, strLits: map[string]string{}, allTags: &s.tags, globals: map[string]*Val{}, trustedUsed: map[string]bool{}}
+	e := &Eng{lit: lit, pkg: ref.pkg, info: ref.pkg.TypesInfo, fset: ref.pkg.Fset, contracts: s.cs, fn: ref.fd, fnKey: u.Short, con: con, strLits: map[string]string{}, allTags: &s.tags, globals: map[string]*Val{}, trustedUsed: map[string]bool{}}
 	func() {
 		defer func() {
 			if r := recover(); r != nil {
